@@ -158,6 +158,12 @@ func Exchange(conn net.Conn, p *Probe, guard time.Duration) Outcome {
 	sreq := kmsg.NewPtrApiVersionsRequest()
 	sreq.SetVersion(0)
 	sframe := kmsg.NewRequestFormatter(kmsg.FormatterClientID("vf-sentinel")).AppendRequest(nil, sreq, sc)
+	// the witness line, should the server under test take the process down
+	if len(p.Frame) <= 4096 {
+		fmt.Fprintf(os.Stdout, "C11-probe %s (%s) %x\n", p.Name(), p.Class, p.Frame)
+	} else {
+		fmt.Fprintf(os.Stdout, "C11-probe %s (%s) %d bytes, shape=%s, first 256: %x\n", p.Name(), p.Class, len(p.Frame), p.Shape, p.Frame[:256])
+	}
 	_ = conn.SetDeadline(time.Now().Add(guard))
 	if _, err := conn.Write(append(append([]byte(nil), p.Frame...), sframe...)); err != nil {
 		// the server may already have closed the connection; reading tells
